@@ -20,6 +20,7 @@ type genCfg struct {
 	ForkPrefix                                                 bool
 	WrongFrozenPct                                             int                                          // share of inputs citing a frozen height the output does not have
 	Mix                                                        func(rt *rapid.T, nm *hx.NodeMachine) hx.NOp // optional: replaces genNodeOp
+	Opts                                                       func(rt *rapid.T, o *hx.NodeOpts)            // optional: draws genesis options
 	MinSteps                                                   int
 	AllowTruncate                                              bool
 	AllowPrune                                                 bool
